@@ -1,10 +1,10 @@
 package main
 
 import (
-	"strconv"
 	"fmt"
 	"reflect"
 	"sort"
+	"strconv"
 	"strings"
 
 	pongo2 "github.com/flosch/pongo2/v6"
